@@ -17,7 +17,7 @@ from pgverif import codec
 
 CHARS = {1: '/', 2: 'm', 3: 'e', 4: 'a', 5: '.', 6: 'j'}
 # PathTable of Store.tla
-PATH_TABLE = {1: [2, 5, 6], 2: [3, 1, 2], 3: [4, 1, 4, 5, 6], 4: [4, 1, 2, 5, 6], 5: [4, 5, 6]}
+PATH_TABLE = {1: [2, 5, 6], 2: [3, 1, 2], 3: [4, 1, 4, 5, 6], 4: [4, 1, 2, 5, 6], 5: [4, 5, 6], 6: [4]}
 WORK = '/verif/.work/store'
 
 
@@ -121,6 +121,8 @@ class StoreReplayer:
         ret = pg.io.path_exists(self.path(act[1], act[2]))
       elif name == 'Rm':
         pg.io.rm(self.path(act[1], act[2]))
+      elif name == 'MkdirAt':
+        pg.io.mkdirs(self.path(act[1], act[2]))
       elif name == 'OpenSeq':
         self.handle_api = act[4]
         if act[4] == 'text':
